@@ -13,10 +13,12 @@ import (
 	"encoding/json"
 	"fmt"
 	"os"
+	"runtime"
 	"sort"
 	"strconv"
 	"strings"
 	"sync"
+	"sync/atomic"
 	"time"
 
 	"github.com/tychoish/fun/pubsub"
@@ -31,6 +33,9 @@ type step struct {
 	W   int    `json:"w"`   // WorkerPoolSize
 	Par bool   `json:"par"` // ParallelDispatch
 	Buf int    `json:"buf"` // BufferSize
+	H   bool   `json:"h"`   // constructor step: hold the dispatcher at the yield point before its cond.Wait
+	// constructor step, added by the check driver: GOMAXPROCS for this schedule (0: leave as is)
+	Procs int `json:"procs"`
 }
 
 type input struct {
@@ -38,7 +43,16 @@ type input struct {
 	Beh []step `json:"beh"`
 }
 
+const window = "pubsub.wait.before-cond-wait"
+
+var gates atomic.Pointer[rt.Gates]
+
 func main() {
+	pubsub.VerifHook = func(p string) {
+		if g := gates.Load(); g != nil {
+			g.Arrive(p)
+		}
+	}
 	if len(os.Args) < 2 {
 		fmt.Fprintln(os.Stderr, "usage: vh-broker replay|record")
 		os.Exit(2)
@@ -383,11 +397,22 @@ func replay(in input) map[string]any {
 	if len(in.Beh) == 0 || in.Beh[0].Op != "new" {
 		return map[string]any{"n": in.N, "ok": true, "inconclusive": "schedule without a constructor step"}
 	}
+	if in.Beh[0].Procs > 0 {
+		defer runtime.GOMAXPROCS(runtime.GOMAXPROCS(in.Beh[0].Procs))
+	}
+	g := rt.NewGates()
+	gates.Store(g)
+	held := in.Beh[0].H
+	if held {
+		g.Arm(window)
+	}
 	w, err := newWorld(in.Beh[0])
 	if err != nil {
+		g.Disarm(window)
 		return map[string]any{"n": in.N, "ok": true, "inconclusive": "constructor rejected the options: " + err.Error()}
 	}
 	defer w.teardown()
+	defer g.Disarm(window)
 	hist := []rt.Event{w.resetEvent()}
 	finish := func(extra map[string]any) map[string]any {
 		out := map[string]any{"n": in.N, "ok": true, "hist": append(hist, w.rec.Events()...)}
@@ -396,7 +421,19 @@ func replay(in input) map[string]any {
 		}
 		return out
 	}
-	if !w.observe() {
+	if held {
+		// the first dispatch worker is held between its emptiness check and cond.Wait (it holds the container's
+		// mutex, so nothing that needs the container is observed until the next step has been made)
+		if _, err := rt.Quiesce(); err != nil {
+			return map[string]any{"n": in.N, "ok": true, "inconclusive": "no quiescence after construction"}
+		}
+		if g.Waiting(window) == 0 {
+			held = false // this back-end does not park on a condition variable
+			g.Disarm(window)
+		}
+		w.rec.Log(rt.Event{"ev": "skip", "op": "hold", "s": ""})
+	}
+	if !held && !w.observe() {
 		return map[string]any{"n": in.N, "ok": true, "inconclusive": "no quiescence after construction"}
 	}
 	for k := 1; k < len(in.Beh); k++ {
@@ -418,6 +455,17 @@ func replay(in input) map[string]any {
 			go func() {
 				w.call(id, c, "unsub", s.name, "")
 				w.guarded(id, func() string { w.b.Unsubscribe(ctx, s.ch); return "ok" })
+			}()
+		case "unsubnil", "unsubstray":
+			// Unsubscribe of nil (what a failed Subscribe returns) / of a channel the broker never handed out
+			var ch chan string
+			if st.Op == "unsubstray" {
+				ch = make(chan string)
+			}
+			ctx := w.opCtx(c, false)
+			go func() {
+				w.call(id, c, "unsub", "", "")
+				w.guarded(id, func() string { w.b.Unsubscribe(ctx, ch); return "ok" })
 			}()
 		case "readon":
 			if s := w.sub(st.A); s != nil {
@@ -466,6 +514,14 @@ func replay(in input) map[string]any {
 			cancel()
 		default:
 			panic("unknown op " + st.Op)
+		}
+		if held {
+			// the step (Stop / parent cancel) ran while the dispatcher was held; let it run into its park now
+			held = false
+			if _, err := rt.Quiesce(); err != nil {
+				return finish(map[string]any{"truncated": k, "why": "no quiescence inside the window"})
+			}
+			g.Disarm(window)
 		}
 		if !w.observe() {
 			// e.g. two idle dispatch workers on one Deque condition variable signal each other for ever
